@@ -31,6 +31,7 @@ var schedConfigs = []struct {
 }
 
 func runSchedules(r *core.Run) {
+	sched.Stop = r.Expired // soft time budget: explorations end with Complete=false
 	tier := 0
 	budget := 400000
 	if r.Thorough() {
